@@ -1,5 +1,7 @@
 import Afkak.Monitor.C04
 import AfkakProofs.Wire.Requests
+import AfkakProofs.Wire.ProduceReq
+import AfkakProofs.Wire.GroupPayloads
 import AfkakProps.Open.C04
 /-!
 # C04 — every request on the wire conforms to the Kafka protocol grammar
@@ -110,6 +112,190 @@ theorem C04_api_versions_conforms (cid : Bytes) (corr key ver : Int) (frame : By
     exact apiVersions_bytes h
   · simp [hk] at hv
 
+/-! ## the topic-grouped requests -/
+
+/-- **Produce v0 / v1 / v2**: the frame parses to the header (key 0, the clamped version, the caller's
+    correlation and client id), acks, timeout and the payloads nested by topic — every message with its
+    format, attributes, timestamp, key and value (null ≠ empty), under a checksum that verifies, in
+    the caller's per-partition order.  `ext.crc` is any checksum function, `ext.nowMs` the clock that
+    stamps format-1 messages without a timestamp. -/
+theorem C04_produce_conforms : C04_produce_conforms_stmt := by
+  intro ext cid corr ps acks timeout ver frame h
+  unfold Monitor.C04.produce
+  apply conforms_of_enc
+  intro v hv
+  cases hiv : implementedVersion ver with
+  | none => simp [hiv] at hv
+  | some iv =>
+    cases hk : keyed ProduceReq.topic ProduceReq.partition (fun p => specEntries ext.nowMs p.messages) ps with
+    | none => simp [hiv, hk] at hv
+    | some l =>
+      simp only [hiv, hk] at hv
+      split at hv
+      · cases hv
+      · cases hv
+        exact produce_bytes h hiv hk
+
+/-- Fetch v0 / v1 / v2 (replica id −1) -/
+theorem C04_fetch_conforms : C04_fetch_conforms_stmt := by
+  intro cid corr ps wait minb ver frame h
+  unfold Monitor.C04.fetch
+  apply conforms_of_enc
+  intro v hv
+  cases hiv : implementedVersion ver with
+  | none => simp [hiv] at hv
+  | some iv =>
+    cases hk : keyed FetchReq.topic FetchReq.partition (fun p => some (p.offset, p.maxBytes)) ps with
+    | none => simp [hiv, hk] at hv
+    | some l =>
+      simp only [hiv, hk, Option.some.injEq] at hv
+      subst hv
+      exact fetch_bytes h hiv hk
+
+/-- ListOffsets v0 -/
+theorem C04_list_offsets_conforms : C04_list_offsets_conforms_stmt := by
+  intro cid corr ps frame h
+  unfold Monitor.C04.listOffsets
+  apply conforms_of_enc
+  intro v hv
+  cases hk : keyed OffsetReq.topic OffsetReq.partition (fun p => some (p.time, p.maxOffsets)) ps with
+  | none => simp [hk] at hv
+  | some l =>
+    simp only [hk, Option.map_some, Option.some.injEq] at hv
+    subst hv
+    exact listOffsets_bytes h hk
+
+/-- OffsetCommit v1 -/
+theorem C04_offset_commit_conforms : C04_offset_commit_conforms_stmt := by
+  intro cid corr g gen c ps frame h
+  unfold Monitor.C04.offsetCommit
+  apply conforms_of_enc
+  intro v hv
+  cases g with
+  | none => simp at hv
+  | some g =>
+    cases c with
+    | none => simp at hv
+    | some c =>
+      cases hk : keyed OffsetCommitReq.topic OffsetCommitReq.partition (fun p => some (p.offset, p.timestamp, p.metadata)) ps with
+      | none => simp [hk] at hv
+      | some l =>
+        simp only [hk, Option.some.injEq] at hv
+        subst hv
+        exact offsetCommit_bytes h hk
+
+/-- OffsetFetch v1 -/
+theorem C04_offset_fetch_conforms : C04_offset_fetch_conforms_stmt := by
+  intro cid corr g ps frame h
+  unfold Monitor.C04.offsetFetch
+  apply conforms_of_enc
+  intro v hv
+  cases g with
+  | none => simp at hv
+  | some g =>
+    cases hk : keyed OffsetFetchReq.topic OffsetFetchReq.partition (fun _ => some ()) ps with
+    | none => simp [hk] at hv
+    | some l =>
+      simp only [hk, Option.some.injEq] at hv
+      subst hv
+      exact offsetFetch_bytes h hk
+
+/-- the subscription a member sends inside JoinGroup -/
+theorem C04_subscription_conforms : C04_subscription_conforms_stmt := by
+  intro ver topics ud data h
+  unfold Monitor.C04.subscription
+  apply conforms_of_enc
+  intro v hv
+  cases ht : topics.mapM id with
+  | none => simp [ht] at hv
+  | some ts =>
+    simp only [ht, Option.map_some, Option.some.injEq] at hv
+    subst hv
+    exact subscription_bytes h ht
+
+/-- the assignment the leader sends inside SyncGroup -/
+theorem C04_assignment_conforms : C04_assignment_conforms_stmt := by
+  intro ver asg ud data h
+  unfold Monitor.C04.assignment
+  apply conforms_of_enc
+  intro v hv
+  cases ha : asg.mapM (fun (p : Option Bytes × List Int) => p.1.map (fun t => (t, p.2))) with
+  | none => simp [ha] at hv
+  | some a =>
+    simp only [ha, Option.map_some, Option.some.injEq] at hv
+    subst hv
+    exact assignment_bytes h ha
+
+/-- **Per-partition order is preserved, nothing is lost or duplicated**: the Python grouping
+    (`defaultdict(dict)`) of payloads with distinct (topic, partition) keys is the protocol's nesting. -/
+theorem C04_order_preserved : C04_order_preserved_stmt := by
+  intro α topic partition xs l h
+  rw [group_eq_lifted topic partition xs l h, lifted_eq_regroup]
+
+/-- **Checksums are valid, null is not empty, attributes and timestamps are kept**: every message the
+    encoder emits is byte for byte the grammar's encoding of the caller's message, hence parses back
+    to it under the grammar (whose message codec verifies the CRC over exactly the bytes after it). -/
+theorem C04_crc_valid : C04_crc_valid_stmt := by
+  intro ext m bytes h
+  cases hs : specMsg ext.nowMs m with
+  | none =>
+    -- a message the grammar cannot carry is never emitted
+    exfalso
+    unfold specMsg at hs
+    unfold encodeMessage at h
+    split at hs
+    · rename_i hneg
+      by_cases h0 : m.magic = 0
+      · rw [if_pos h0] at h
+        split at h
+        · rename_i hb k v hhb hk hv
+          have hok := ((pack_eq _ _ _).mp hhb).1
+          simp only [fieldsOk, fieldSpec, and_true] at hok
+          have := (attrs_nat hok.2).1
+          omega
+        · cases h
+        · cases h
+        · cases h
+      · rw [if_neg h0] at h
+        by_cases h1 : m.magic = 1
+        · rw [if_pos h1] at h
+          cases hts : m.timestamp with
+          | none =>
+            simp only [hts] at h
+            split at h
+            · rename_i hb k v hhb hk hv
+              have hok := ((pack_eq _ _ _).mp hhb).1
+              simp only [fieldsOk, fieldSpec, and_true] at hok
+              have := (attrs_nat hok.2.1).1
+              omega
+            · cases h
+            · cases h
+            · cases h
+          | some ts =>
+            simp only [hts] at h
+            split at h
+            · rename_i hb k v hhb hk hv
+              have hok := ((pack_eq _ _ _).mp hhb).1
+              simp only [fieldsOk, fieldSpec, and_true] at hok
+              have := (attrs_nat hok.2.1).1
+              omega
+            · cases h
+            · cases h
+            · cases h
+        · rw [if_neg h1] at h
+          cases h
+    · by_cases h0 : m.magic = 0
+      · simp [h0] at hs
+      · by_cases h1 : m.magic = 1
+        · simp [h1] at hs
+        · rw [if_neg h0, if_neg h1] at h
+          cases h
+  | some sm =>
+    refine ⟨sm, rfl, ?_⟩
+    intro hv
+    rw [message_bytes ext m sm bytes h hs]
+    exact (Spec.message ext.crc).law sm hv
+
 /-! Non-vacuity: concrete in-range arguments for which the encoder emits a frame and the monitor
 says `ok` (so the theorems above are not about an empty set of frames). -/
 example : ∃ frame, encodeMetadataRequest [99, 105, 100] 7 [some [116], some []] = .ok frame
@@ -119,6 +305,25 @@ example : ∃ frame, encodeHeartbeatRequest [] (-2147483648) (some [103]) 214748
 example : ∃ frame, encodeJoinGroupRequest [] 1 ⟨some [103], 30000, some [], some [99], [(some [114], some [0, 1])]⟩ = .ok frame
     ∧ Monitor.C04.joinGroup [] 1 ⟨some [103], 30000, some [], some [99], [(some [114], some [0, 1])]⟩ frame = .ok :=
   ⟨_, rfl, by decide⟩
+/-- a produce request with two topics (interleaved payloads), null / empty keys and values, both
+    message formats in a v2 request: emitted, and the monitor says `ok` -/
+def exampleExt : Ext :=
+  { crc := fun bs => bs.length * 2654435761 + 7, gzip := fun _ => .error .extMissing, gunzip := fun _ => .error .extMissing,
+    snappy := fun _ => .error .notImplemented, unsnappy := fun _ => .error .notImplemented, nowMs := 1500000000123 }
+def examplePayloads : List ProduceReq :=
+  [⟨some [116], 0, [⟨0, 0, none, some [1, 2], none⟩, ⟨1, 0, some [], none, none⟩]⟩,
+   ⟨some [117], 3, []⟩,
+   ⟨some [116], 1, [⟨1, 8, some [107], some [], some (-1)⟩]⟩]
+example : ∃ frame, encodeProduceRequest exampleExt [99] 5 examplePayloads (-1) 1000 8 = .ok frame
+    ∧ Monitor.C04.produce exampleExt.crc exampleExt.nowMs [99] 5 examplePayloads (-1) 1000 8 frame = .ok :=
+  ⟨_, rfl, by decide +kernel⟩
+example : ∃ frame, encodeFetchRequest [] 1 [⟨some [116], 2, 9223372036854775807, 4096⟩, ⟨some [116], 0, 0, 1⟩] 100 4096 11 = .ok frame
+    ∧ Monitor.C04.fetch [] 1 [⟨some [116], 2, 9223372036854775807, 4096⟩, ⟨some [116], 0, 0, 1⟩] 100 4096 11 frame = .ok :=
+  ⟨_, rfl, by decide +kernel⟩
+/-- a magic-1 message in a Produce v0 request is outside the grammar (and outside what the producer sends) -/
+example : ∃ frame, encodeProduceRequest exampleExt [] 1 [⟨some [116], 0, [⟨1, 0, none, none, some 5⟩]⟩] 1 1 0 = .ok frame
+    ∧ Monitor.C04.produce exampleExt.crc exampleExt.nowMs [] 1 [⟨some [116], 0, [⟨1, 0, none, none, some 5⟩]⟩] 1 1 0 frame = .outOfRange :=
+  ⟨_, rfl, by decide +kernel⟩
 /-- an out-of-range correlation id is rejected (no frame at all) -/
 example : encodeMetadataRequest [] 2147483648 [] = .error .structError := rfl
 
@@ -244,12 +449,6 @@ C04_leave_group_conforms
 C04_join_group_conforms
 C04_sync_group_conforms
 C04_api_versions_conforms
-C04_version_choice
-C04_version_choice_order
-C04_fallback_zero
-C04_fallback_on_error_code
--/
-/- OPEN_STATEMENTS
 C04_produce_conforms
 C04_fetch_conforms
 C04_list_offsets_conforms
@@ -259,4 +458,10 @@ C04_subscription_conforms
 C04_assignment_conforms
 C04_order_preserved
 C04_crc_valid
+C04_version_choice
+C04_version_choice_order
+C04_fallback_zero
+C04_fallback_on_error_code
+-/
+/- OPEN_STATEMENTS
 -/
